@@ -65,6 +65,91 @@ fn pinned_up<I>() -> PinnedUp<I> {
     PinnedUp(std::marker::PhantomData, std::marker::PhantomPinned)
 }
 
+// C03, static part: the collections may only be Send / Sync when the futures they hold are (the waker
+// block is shared between threads, the futures are not): a blanket `unsafe impl Send` would let safe
+// code move a !Send future to another thread.
+struct AutoProbe<'a, T>(&'a T);
+trait SendYes {
+    fn is_send(&self) -> bool {
+        true
+    }
+}
+impl<'a, T: Send> SendYes for AutoProbe<'a, T> {}
+trait SendNo {
+    fn is_send(&self) -> bool {
+        false
+    }
+}
+impl<'a, 'b, T> SendNo for &'b AutoProbe<'a, T> {}
+trait SyncYes {
+    fn is_sync(&self) -> bool {
+        true
+    }
+}
+impl<'a, T: Sync> SyncYes for AutoProbe<'a, T> {}
+trait SyncNo {
+    fn is_sync(&self) -> bool {
+        false
+    }
+}
+impl<'a, 'b, T> SyncNo for &'b AutoProbe<'a, T> {}
+macro_rules! send_sync {
+    ($e:expr) => {{
+        let v = $e;
+        let r = ((&AutoProbe(&v)).is_send(), (&AutoProbe(&v)).is_sync());
+        drop(v);
+        r
+    }};
+}
+
+/// a future that is neither Send nor Sync
+struct LocalFut(std::rc::Rc<()>);
+impl std::future::Future for LocalFut {
+    type Output = ();
+    fn poll(self: std::pin::Pin<&mut Self>, _cx: &mut std::task::Context<'_>) -> std::task::Poll<()> {
+        std::task::Poll::Ready(())
+    }
+}
+/// a future that is Send and Sync
+struct SharedFut(u8);
+impl std::future::Future for SharedFut {
+    type Output = ();
+    fn poll(self: std::pin::Pin<&mut Self>, _cx: &mut std::task::Context<'_>) -> std::task::Poll<()> {
+        std::task::Poll::Ready(())
+    }
+}
+
+fn send_sync_matrix() -> Vec<(String, String, String, Vec<String>)> {
+    use futures_buffered::{join_all, FuturesOrdered, FuturesOrderedBounded, FuturesUnordered, FuturesUnorderedBounded};
+    let mut found = vec![];
+    let mut row = |name: &str, local: (bool, bool), shared: (bool, bool)| {
+        if local.0 || local.1 {
+            found.push((
+                format!("send/sync matrix: {}", name),
+                "send-or-sync-over-local-future".to_string(),
+                format!("{} holding a future that is neither Send nor Sync is Send = {}, Sync = {}: safe code could use that future from another thread", name, local.0, local.1),
+                vec![],
+            ));
+        }
+        if !shared.0 || !shared.1 {
+            found.push((
+                format!("send/sync matrix: {}", name),
+                "not-send-sync-over-shared-future".to_string(),
+                format!("{} holding a Send + Sync future is Send = {}, Sync = {} (the probe expects both)", name, shared.0, shared.1),
+                vec![],
+            ));
+        }
+    };
+    row("FuturesUnorderedBounded", send_sync!(FuturesUnorderedBounded::<LocalFut>::new(1)), send_sync!(FuturesUnorderedBounded::<SharedFut>::new(1)));
+    row("FuturesUnordered", send_sync!(FuturesUnordered::<LocalFut>::new()), send_sync!(FuturesUnordered::<SharedFut>::new()));
+    row("FuturesOrderedBounded", send_sync!(FuturesOrderedBounded::<LocalFut>::new(1)), send_sync!(FuturesOrderedBounded::<SharedFut>::new(1)));
+    row("FuturesOrdered", send_sync!(FuturesOrdered::<LocalFut>::new()), send_sync!(FuturesOrdered::<SharedFut>::new()));
+    row("JoinAll", send_sync!(join_all(Vec::<LocalFut>::new())), send_sync!(join_all(Vec::<SharedFut>::new())));
+    let _ = SharedFut(0).0;
+    let _ = LocalFut(std::rc::Rc::new(())).0;
+    found
+}
+
 fn unpin_matrix() -> Extra {
     use crate::subjects::{F, TF, UF};
     use futures_buffered::{BufferedStreamExt, BufferedTryStreamExt};
@@ -109,7 +194,13 @@ pub fn extra(prop: &str, tier: &str, threads: usize) -> Option<Extra> {
         return Some(unpin_matrix());
     }
     match prop {
-        "C03" => Some(layout_sweep(if tier == "thorough" { 512 } else { 64 }, threads)),
+        "C03" => {
+            let mut e = layout_sweep(if tier == "thorough" { 512 } else { 64 }, threads);
+            e.found.extend(send_sync_matrix());
+            e.names.push("send/sync matrix (collections over a !Send/!Sync future must be neither; over a Send+Sync future both)".into());
+            e.executions += 10;
+            Some(e)
+        }
         "C18" => Some(alloc_words(tier == "thorough", threads)),
         _ => None,
     }
